@@ -21,6 +21,15 @@ struct GWide // full-range bit patterns: only used for conversion / get, not for
 {
     static constexpr uint64_t get(size_t i, size_t) { return cmix(S * 1000003ull + i * 7919ull + 11); }
 };
+// signed packs: values in [-100, 100] without 0 (so that / and % are defined); only instantiated for signed T
+template <unsigned S>
+struct GNeg
+{
+    static constexpr int64_t get(size_t i, size_t)
+    {
+        return (int64_t)(cmix(S * 1000003ull + i * 7919ull + 3) % 201) - 100 == 0 ? 7 : (int64_t)(cmix(S * 1000003ull + i * 7919ull + 3) % 201) - 100;
+    }
+};
 struct GArange
 {
     static constexpr uint64_t get(size_t i, size_t) { return i; }
@@ -278,6 +287,15 @@ static void all_types(Rng& rng)
         value_ops<T, GSmall<1>, GSmall<2>>("small1_small2");
         value_ops<T, GSmall<3>, GAlt>("small3_alt");
         value_ops<T, GArange, GConst7>("arange_const");
+        if constexpr (std::is_signed<T>::value)
+        {
+            // negative numerators / denominators: signed division and remainder truncate toward zero
+            value_const<T, GNeg<1>>("signed1");
+            value_const<T, GNeg<2>>("signed2");
+            value_ops<T, GNeg<1>, GNeg<2>>("signed1_signed2");
+            value_ops<T, GNeg<3>, GSmall<2>>("signed3_small2");
+            value_ops<T, GSmall<1>, GNeg<4>>("small1_signed4");
+        }
     }
     bool_const<T, GB<1>>(rng, "random1");
     bool_const<T, GB<2>>(rng, "random2");
